@@ -5,7 +5,6 @@ components, biconnected components and articulation points.
 Nothing in this module calls gaftools to compute an expected answer.  The two `build_*` helpers only drive the public
 API of the class under test (the GFA class is passed in)."""
 import itertools
-import os
 
 FLIP = {"+": "-", "-": "+"}
 ORI4 = [("+", "+"), ("+", "-"), ("-", "+"), ("-", "-")]
@@ -319,7 +318,3 @@ def read_links(path):
                 links.append((p[1], p[2], p[3], p[4], int(p[5].rstrip("M") or 0)))
     known = {nd[0] for nd in nodes}
     return nodes, [l for l in links if l[0] in known and l[2] in known]
-
-
-def scratch(d, name):
-    return os.path.join(d, name)
